@@ -24,6 +24,7 @@ def gen_lines(rng, n_num, n_int, n_print, bufs):
             pre = rng.choice(['', '', ' ', '  ', '\t ', '+', ' +'])
             post = rng.choice(['', '', ' ', 'x', ' 1', '(3)'])
             lines.append('atof\t' + F.hx(pre + s + post))
+            lines.append('o_dbl\t%s 0' % F.hx(pre + s + post))
             # fixed-column field: the number somewhere in a field, bytes after the field arbitrary
             width = rng.choice([len(s), len(s) + 1, len(s) + 3, max(1, len(s) - 1), 8, 6])
             field = (pre + s).rjust(width) if rng.random() < 0.5 else (pre + s).ljust(width)
@@ -31,12 +32,15 @@ def gen_lines(rng, n_num, n_int, n_print, bufs):
             ln = rng.choice([len(field), len(field), width])
             if 0 < ln <= len(field) and len(field) < 60:
                 lines.append('rdbl\t%s %d' % (F.hx(field + after), ln))
+                lines.append('o_dbl\t%s %d' % (F.hx(field + after), ln))
     for s in ['', ' ', '    ', '   1.5  ', ' 1.5 2.5', '1e', '1e5', '1e+', '  -', '--1', '0x10', ' nan', 'inf', '1.5(3)',
               '12345678', '-1234.567', ' 999.999', '  .5', '5.', '+5', ' +5.5', '+ 5', '1 .5', '1,5', '1.5\n', '\n1.5']:
         for ln in sorted(set([len(s), max(1, len(s) - 1), 4, 8])):
             if 0 < ln <= len(s) + 8:
                 lines.append('rdbl\t%s %d' % (F.hx(s + rng.choice(['', '7', ' 1'])), ln))
+                lines.append('o_dbl\t%s %d' % (F.hx(s + rng.choice(['', '7', ' 1'])), ln))
         lines.append('atof\t' + F.hx(s))
+        lines.append('o_dbl\t%s 0' % F.hx(s))
     # integers
     for _ in range(n_int):
         s = F.gen_int_string(rng)
@@ -46,6 +50,8 @@ def gen_lines(rng, n_num, n_int, n_print, bufs):
             lines.append('sti\t%s 1 0' % F.hx(s))
             lines.append('satoi\t' + F.hx(s))
             lines.append('asint\t' + F.hx(s))
+            if F.int_value_fits(cut, no_sign=True):
+                lines.append('o_int\t%s 0' % F.hx(s))
         if F.int_value_fits(cut, no_sign=True):
             lines.append('nsatoi\t' + F.hx(s))
         # fixed-column: field of length ln inside a longer record
@@ -54,11 +60,13 @@ def gen_lines(rng, n_num, n_int, n_print, bufs):
         if F.int_value_fits(fcut):
             lines.append('sti\t%s 0 %d' % (F.hx(s), ln))
             lines.append('rint\t%s %d' % (F.hx(s), ln))
+            lines.append('o_int\t%s %d' % (F.hx(s), ln))
     for s, ln in [('   -5', 3), ('   -5', 4), ('   +5', 4), ('  12', 2), ('  12', 3), ('12345', 3), ('-', 1), (' ', 1),
                   ('1 2', 3), ('  -', 3), ('  -7', 3), ('\t\n 42', 6), ('0042', 4), ('4 2 ', 4), ('+-5', 3), ('-+5', 3)]:
         lines.append('sti\t%s 0 %d' % (F.hx(s), ln))
         lines.append('rint\t%s %d' % (F.hx(s), ln))
         lines.append('sti\t%s 1 %d' % (F.hx(s), ln))
+        lines.append('o_int\t%s %d' % (F.hx(s), ln))
     for s in ['', ' ', '?', '.', '-', '+', '12', ' 12 ', '12 3', '1.0', '1e3', '0x1', '--1', '+-1', '- 1', '12\n', '\x0012']:
         lines.append('asint\t' + F.hx(s))
         lines.append('sti\t%s 1 0' % F.hx(s))
@@ -185,7 +193,7 @@ def run(chk):
             seen = set()
             for (cmd, args, r) in res['oracle_fail']:
                 key_args = args
-                if cmd == 'o_num' and (cmd, 'shrunk') not in seen and len(seen) < 6:
+                if cmd in ('o_num',) and len(seen) < 6:
                     raw = bytes.fromhex(args) if args != '-' else b''
                     small = shrink_string(h, cmd, raw)
                     seen.add((cmd, small))
@@ -203,7 +211,7 @@ def run(chk):
                 'bytes and fixed-column cuts; doubles/floats stratified over the exponent range plus decimal ties and '
                 'the 1e7/1e8 boundaries. Commands tbl/sti/rint/satoi/nsatoi/asint/num/atof/rdbl compared exactly '
                 '(IEEE bit patterns) gemmi vs extracted model vs glibc strtod_l/strtol_l("C"); prec/tostr checked by the '
-                'exact half-unit checker of the model; oracles o_num/o_print/o_buf/o_snp/o_tcz evaluated on gemmi; '
+                'exact half-unit checker of the model; oracles o_num/o_int/o_dbl/o_print/o_buf/o_snp/o_tcz evaluated on gemmi; '
                 'everything repeated under a locale with decimal point ",". non-trivial = result is not the all-zero '
                 'double / not skipped')
     if not proved:
